@@ -18,7 +18,7 @@ R = 'html5ever/src/tree_builder/rules.rs'
 TS = 'html5ever/src/tree_builder/tag_sets.rs'
 
 MUT = ('append_text', 'append_comment', 'insert_element_for', 'insert_and_pop_element_for', 'insert_phantom', 'foreign_start_tag',
-       'unexpected_start_tag_in_foreign_content', 'step_foreign')
+       'unexpected_start_tag_in_foreign_content', 'step_foreign', 'enter_foreign')
 REWRITES = u_stack.REWRITES + [
     Rewrite('R1-receiver', r'(fn \w+(?:<[^>]*>)?\(\s*)&self\b', r'\1&mut self', only=tuple('TreeBuilder::' + n for n in MUT)),
     # R11: expanded names and atoms are held by value
@@ -59,7 +59,7 @@ PARTS = BASE + [
     Item(TS, 'fn', 'mathml_text_integration_point', mode='assume'),
     Item(TS, 'fn', 'svg_html_integration_point', mode='assume'),
     tb('insert_element'), tb('insert_element_for'), tb('insert_and_pop_element_for'), tb('insert_phantom'),
-    tb('append_text'), tb('append_comment'), tb('foreign_start_tag'), tb('unexpected_start_tag_in_foreign_content'),
+    tb('append_text'), tb('append_comment'), tb('foreign_start_tag'), tb('enter_foreign'), tb('unexpected_start_tag_in_foreign_content'),
     # facts about the token established by the match arms are used inside the end-tag loop (no loop isolation)
     Item(R, 'fn', 'step_foreign', impl='TreeBuilder', wrap='impl TreeBuilder', attrs='#[verifier::loop_isolation(false)]'),
     Raw('} // verus!\nfn main() {}'),
